@@ -42,10 +42,10 @@ class PyKdebugParser:
         self.dyld_addresses = []
         self.dyld_uuids = []
 
-    def kevents(self, kdebug: io.IOBase, helper_classes=()):
+    def kevents(self, kdebug: io.IOBase, helper_classes=(), apply_tid_filter=True):
         events_generator = KdBufParser(self.threads_pids, self.pids_names).parse(kdebug)
         events_generator = filter(lambda e: not isinstance(e, OsLogEvent), events_generator)
-        if self.filter_tid is not None:
+        if apply_tid_filter and self.filter_tid is not None:
             events_generator = filter(lambda e: e.tid == self.filter_tid, events_generator)
         if self.filter_class or self.filter_subclass:
             events_generator = filter(
@@ -70,8 +70,12 @@ class PyKdebugParser:
             helper_classes.append(DBG_FSYSTEM)
 
         traces_parser = TracesParser(trace_codes_map, self.threads_pids, self.pids_names)
-        trace_generator = traces_parser.feed_generator(self.kevents(kdebug, helper_classes))
+        # Other threads' records declare the processes of the requested thread, so the thread filter is applied
+        # to the decoded traces rather than to the events.
+        trace_generator = traces_parser.feed_generator(self.kevents(kdebug, helper_classes, apply_tid_filter=False))
 
+        if self.filter_tid is not None:
+            trace_generator = filter(lambda t: t.ktraces[0].tid == self.filter_tid, trace_generator)
         if self.filter_process is not None:
             trace_generator = filter(self._filter_process_callback, trace_generator)
         if add_trace_class:
